@@ -29,7 +29,8 @@ TECHNIQUE = ("runtime monitoring: icontract contract set (well-formedness, input
 LEVEL_TEXT = ("Exploration over programs: thousands of random pipelines (1-8 steps quick, 1-25 "
               "thorough) over the operation alphabet with admissible arguments drawn from the current "
               "tree, from every shape class; every call of a contracted entry point (also nested "
-              "ones) is checked, and both mutation probes run after every pipeline step.")
+              "ones) is checked, and both mutation probes run after every pipeline step."
+              " Generated trees come in several representations of the same values (strided, other dtypes / lists, one array as two columns, read-only where the harness never writes) and half of them were queried, a third put through aborted operations, before use. cat_tree(t, t, ...) with one object in both positions; steps on trees with read-only columns.")
 LEVEL_NOTE = ("Contracts cannot see a reference bound before installation that is not a module "
               "attribute; evaluation counters per entry point make that visible (a zero count is "
               "inconclusive). NaN-producing Normalizer inputs (constant columns) are not generated.")
